@@ -1025,3 +1025,43 @@ Proof.
         specialize (Min k' Hk'). unfold P in *.
         replace (pri (get (arr q1) k)) with (pri (get (arr q) k')); [exact Min|]. now injection Ek'.
 Qed.
+
+(* ------------------------------------------------------------------ instances for the two queues *)
+Theorem if_scan_never_early : forall q t out q',
+  if_scan q t = (out, q') -> Forall (fun x => (pri x <= t)%Z) out.
+Proof. intros q t. exact (scan_never_early if_peek if_peek_never_early _ q t). Qed.
+Theorem ch_scan_never_early : forall q t out q',
+  ch_scan q t = (out, q') -> Forall (fun x => (pri x <= t)%Z) out.
+Proof. intros q t. exact (scan_never_early ch_peek ch_peek_never_early _ q t). Qed.
+
+Theorem if_scan_complete : forall q t out q', hwf q -> if_scan q t = (out, q') ->
+  Permutation (keys out) (filter (due t) (keys (arr q))) /\
+  Permutation (keys (arr q')) (filter (not_due t) (keys (arr q))) /\
+  hwf q' /\ Forall (fun x => idx x = (-1)%Z) out /\
+  (forall lo, (forall k, (k < length (arr q))%nat -> (lo <= P (arr q) k)%Z) -> sorted_from lo out).
+Proof.
+  intros q t out q' H E.
+  exact (scan_complete if_peek if_peek_never_early if_peek_spec _ q t out q' H (Nat.lt_succ_diag_r _) E).
+Qed.
+Theorem ch_scan_complete : forall q t out q', hwf q -> ch_scan q t = (out, q') ->
+  Permutation (keys out) (filter (due t) (keys (arr q))) /\
+  Permutation (keys (arr q')) (filter (not_due t) (keys (arr q))) /\
+  hwf q' /\ Forall (fun x => idx x = (-1)%Z) out /\
+  (forall lo, (forall k, (k < length (arr q))%nat -> (lo <= P (arr q) k)%Z) -> sorted_from lo out).
+Proof.
+  intros q t out q' H E.
+  exact (scan_complete ch_peek ch_peek_never_early ch_peek_spec _ q t out q' H (Nat.lt_succ_diag_r _) E).
+Qed.
+
+(* a boolean check of well-formedness, for concrete witnesses *)
+Definition hwf_check (l : list item) : bool :=
+  forallb (fun k => (k =? 0)%nat || (P l (parent k) <=? P l k)%Z) (seq 0 (length l))
+  && forallb (fun k => (idx (get l k) =? Z.of_nat k)%Z) (seq 0 (length l)).
+
+Lemma hwf_check_sound : forall l c, hwf_check l = true -> hwf (mkPq l c).
+Proof.
+  intros l c H. unfold hwf_check in H. apply andb_true_iff in H. destruct H as [A B].
+  rewrite forallb_forall in A, B. split; cbn [arr].
+  - intros k Hk. specialize (A k ltac:(apply in_seq; lia)). lia.
+  - intros k Hk. specialize (B k ltac:(apply in_seq; lia)). lia.
+Qed.
